@@ -40,6 +40,7 @@ type Case struct {
 	Idents []Ident    `json:"idents"`
 	Format string     `json:"format"`
 	Scheme string     `json:"scheme"`
+	Warm   string     `json:"warm,omitempty"` // earlier verification on the same verifier: "", matching-leaf, unrelated-leaf
 }
 
 var namedTypes = []string{"C", "ST", "O", "OU", "CN", "L", "STREET", "POSTALCODE", "SERIALNUMBER"}
@@ -249,6 +250,26 @@ func run(c Case) (authErr error, herr error) {
 	if err != nil {
 		return nil, fmt.Errorf("policy with identities %q rejected: %v", ids, err)
 	}
+	if c.Warm != "" {
+		var wsub [][]pki.AV
+		switch c.Warm {
+		case "matching-leaf": // a leaf whose subject is exactly the first pinned identity
+			for _, id := range c.Idents {
+				if id.Prefix == "x509.subject" && wsub == nil {
+					for _, a := range id.AVs {
+						wsub = append(wsub, []pki.AV{a})
+					}
+				}
+			}
+		}
+		if wsub == nil {
+			wsub = [][]pki.AV{{{T: "C", V: "ZZ"}}, {{T: "ST", V: "warm"}}, {{T: "O", V: "warm-up org"}}}
+		}
+		wleaf := pki.Mint(pki.Spec{RawSubject: pki.RDNs(wsub), NotBefore: caChain.Certs[1].Cert.NotBefore, NotAfter: caChain.Certs[1].Cert.NotAfter, EKU: leafEKU}, caChain.Certs[1])
+		wenv := envb.Build(envb.Spec{Format: c.Format, Payload: envb.PayloadFor(desc.MediaType, desc.Digest.String(), desc.Size, nil), ContentType: envb.PayloadType,
+			Scheme: scheme, SigningTime: leaf.Cert.NotBefore.Add(23 * 3600 * 1e9), Chain: append(x509s(wleaf), caChain.X509()[1:]...), Key: wleaf.Key})
+		v.Verify(context.Background(), desc, wenv, notation.VerifierVerifyOptions{ArtifactReference: kit.Reference(desc), SignatureMediaType: c.Format})
+	}
 	out, verr := v.Verify(context.Background(), desc, env, notation.VerifierVerifyOptions{ArtifactReference: kit.Reference(desc), SignatureMediaType: c.Format})
 	if out == nil {
 		return nil, fmt.Errorf("nil outcome: %v", verr)
@@ -423,6 +444,7 @@ func TestC04_Identities(t *testing.T) {
 			}
 			c.Idents = shuffled
 		}
+		c.Warm = rp.Pick(rt, "warm", "", "", "", "matching-leaf", "matching-leaf", "unrelated-leaf")
 		want, either := modelPass(c)
 		// classes
 		cl := []string{"class=" + kind, "leaf=" + shape, "format=" + c.Format, "scheme=" + c.Scheme}
@@ -436,6 +458,9 @@ func TestC04_Identities(t *testing.T) {
 			cl = append(cl, "either-outcome(multivalued-leaf)")
 		}
 		cl = append(cl, map[bool]string{true: "model=pass", false: "model=fail"}[want])
+		if c.Warm != "" {
+			cl = append(cl, "reused-verifier")
+		}
 		var idTexts []string
 		for _, id := range c.Idents {
 			idTexts = append(idTexts, id.Text)
